@@ -68,6 +68,9 @@ func (m model) timeout(c int) time.Duration {
 	if m.k < 1 {
 		return m.min
 	}
+	if c == 0 {
+		return m.max // the initial timer is armed with max itself; only a confirmation re-computes (and floors to a millisecond)
+	}
 	frac := math.Log(float64(c)+1) / math.Log(float64(m.k)+1)
 	raw := m.max.Seconds() - frac*(m.max.Seconds()-m.min.Seconds())
 	t := time.Duration(math.Floor(1000*raw)) * time.Millisecond
